@@ -64,7 +64,7 @@ CHECKS = {
         "assumptions": ["delegate futures are plain stdlib futures driven by the environment; chains longer than one level are covered by the pure law (vchain_compose) and the whole-stack differential of C01"],
     },
     "C14": {
-        "extra_props": ["Props/Comb_F.v", "Props/C14_src.v"],
+        "extra_props": ["Props/Comb_F.v", "Props/C14_src.v", "Props/C14_ir.v"],
         "modules": ["p_c14"],
         "gen_lemmas": ["or_update_spec", "and_update_spec"],
         "rule": "seeded scenarios: f_or/f_and over 2-5 input positions drawn from 2-5 environment futures (duplicates, inputs already done, "
@@ -75,7 +75,7 @@ CHECKS = {
         "assumptions": ["inputs are plain stdlib futures driven by the environment; inputs that were already done at call time count as finishing at registration, in argument order"],
     },
     "C15": {
-        "extra_props": ["Props/Comb_F.v", "Props/C15_src.v"],
+        "extra_props": ["Props/Comb_F.v", "Props/C15_src.v", "Props/C15_ir.v"],
         "modules": ["p_c15"],
         "gen_lemmas": ["zip_update_spec", "tuple_classes_20"],
         "rule": "as C14 for f_zip (positions, duplicates, first failure / first cancellation, output cancel fan-out), replayed on Model/Comb.v; "
@@ -93,16 +93,21 @@ CHECKS = {
                 "inputs resolved, arguments in place, failure identity; non-trivial = >= 2 arguments and a preemption",
         "assumptions": ["the currying construction is modelled as a pure function (Model/Apply.v); the flat_map/map plumbing underneath is C13's"],
     },
-    "C17": {
-        "extra_props": ["Props/C17_src.v"],
-        "modules": ["p_c17", "p_c17m"],
-        "gen_lemmas": ["proxy_table (33 entries) all in transparent form", "NoCancelFuture.cancel = False"],
-        "rule": "p_c17m: the MapFuture protocol underneath ProxyFuture / NoCancelFuture in lockstep with Model/MapFut.v (family of C02/C13); p_c17 also stacks wrappers on a future while another thread resolves it, timeouts 0 / 0.0, inputs already resolved / failed / cancelled at wrap time; seeded cases: 15 binary and 19 unary/builtin/attribute operations x 19 result values of builtin types x 14 operands x "
-                "future state {resolved, failed, pending then resolved from another thread}; non-forwarded operations (bool, repr, str, ==, "
-                "hash, unknown dunder) on a pending future; timeout on a never-resolved future (virtual time); f_nocancel shielding; "
-                "monitor: same value and type, or same exception type, as the operation on the plain value; a blocked operation is a deadlock",
-        "assumptions": ["Python's operator dispatch is modelled without subclass priority of the right operand; semantics of the builtin types themselves are not modelled (sampled differentially)"],
-    },
+    "C17": {   'assumptions': ["Python's operator dispatch is modelled without subclass priority of the right operand; semantics of the builtin types themselves are not modelled (sampled differentially)"],
+        'extra_props': ['Props/C17_src.v', 'Props/C17_more.v', 'Props/C17_nocancel.v'],
+        'gen_lemmas': [   'proxy_table (33 entries) all in transparent form',
+                          'NoCancelFuture.cancel = False',
+                          "Proxy2Gen: f_proxy's timeout expression maps timeout=0 to 0 and an absent keyword to MAX_TIMEOUT; __result passes the configured timeout",
+                          'Proxy2Gen: every one of the 33 regenerated method bodies has one of ten shapes and agrees with proxy_table; exactly __bool__ / __nonzero__ do not resolve',
+                          'Proxy2Gen: __getattr__ statement list; class / instance attribute names; no reflected dunder in the table',
+                          'Proxy2Gen: NoCancelFuture.cancel body = return False, map function = identity, no error function'],
+        'modules': ['p_c17', 'p_c17m'],
+        'rule': 'p_c17m: the MapFuture protocol underneath ProxyFuture / NoCancelFuture in lockstep with Model/MapFut.v (family of C02/C13); p_c17 also stacks wrappers on a future while another thread '
+                'resolves it, timeouts 0 / 0.0, inputs already resolved / failed / cancelled at wrap time; seeded cases: 15 binary and 19 unary/builtin/attribute operations x 19 result values of builtin '
+                'types x 14 operands x future state {resolved, failed, pending then resolved from another thread}; non-forwarded operations (bool, repr, str, ==, hash, unknown dunder) on a pending '
+                'future; timeout on a never-resolved future (virtual time); f_nocancel shielding; monitor: same value and type, or same exception type, as the operation on the plain value; a blocked '
+                'operation is a deadlock; the ghost log of Model/Proxy2.v made real: every self.result(timeout) call of the proxy is recorded - exactly one per forwarded operation, with the configured '
+                'timeout, none for bool / repr / str / == / hash / unknown dunder (pattern proxy:resolutions:<op>); futures failed with an AttributeError (the __getattr__ edge)'},
     "C19": {
         "extra_props": ["Props/C19_src.v"],
         "modules": ["p_c19"],
@@ -189,7 +194,7 @@ CHECKS = {
         "assumptions": ["PARTIAL: GC/finalisation timing is CPython's; the worker-loop protocol is proved on Model/Refs.v, which is in lockstep with the four loops (drop scenarios); reference retention of finished work is decided by weakref probes"],
     },
     "C02": {
-        "extra_props": ["Props/Comb_F.v", "Props/MapFut_D.v", "Props/C02_src.v"],
+        "extra_props": ["Props/Comb_F.v", "Props/MapFut_D.v", "Props/C02_src.v", "Props/C02_machines.v"],
         "modules": ["p_c02m", "p_c02c", "p_c02p", "p_c02x", "p_c02t", "p_c02r"],
         "rule": "p_c02t / p_c02r: the Throttle and Retry lockstep families (cancel() of queued / in-flight futures racing with hand-over and completion) with their protocol verdicts; p_c02x: random expression trees (depth <= 3) over f_map / f_flat_map / f_proxy / f_nocancel / f_timeout / f_zip / f_or / f_and on 1-4 environment futures completed with values or exceptions in any order (monitor only: root done, outcome allowed by the tree's sequential meaning, waiters released); p_c02p: the C08 scenario family on PollExecutor plus 1-3 user done-callbacks per poll future (monitor only); library futures: the C13 scenario family (MapFuture/FlatMapFuture over environment futures; done-callbacks that may raise, "
                 "added before/after completion; 0-2 cancels) plus 0-3 threads blocked in result()/exception()/wait()/as_completed() with a "
@@ -197,7 +202,7 @@ CHECKS = {
                 "Model/Comb.v; monitor: outcome seen by every callback = final outcome, callbacks exactly once and only when done, cancel() "
                 "bool semantics, waiters released at the virtual instant of completion (any kind, incl. cancellation); non-trivial = a "
                 "cancel or add_done_callback call and a preemption",
-        "assumptions": ["entry points not driven here (retry/poll/throttle futures) are covered by their own machines' protocol events"],
+        "assumptions": ["poll / throttle / timeout futures: the protocol clauses (terminal once, cancel() bool semantics and never raising, cancelled futures notified, user callbacks of the timeout futures exactly once per registration) are PROVED on their machines (Props/C02_machines.v), which are tied to the code by the lockstep families of C07 / C08 / C09 and p_c02t; user done-callbacks on poll / throttle futures are not in those machines (monitor p_c02p only); retry futures are covered by the Retry machine's protocol events"],
     },
     "C09": {
         "extra_props": ["Props/C09_src.v"],
